@@ -64,6 +64,19 @@ void h_strcat(void) { STR(char, s, ls); VF_INPUT(unsigned char, ld); VF_INPUT(un
   VF_ASSERT(r == d && d[g] == (g < ld ? pre[g] : (g < ld + app ? s_in[g - ld] : 0)), "strcat/strncat: dest kept, at most n source characters appended, always terminated, exact-fit buffer");
   VF_REACH(); }
 
+/* strncat appends from an ARRAY (7.24.3.2): the source holds exactly n characters and need not be terminated */
+/*@GROUP name=strncat_array props=C18,C02 kind=B unwind=8 bound=count<=4,strlen(dest)<=4@*/
+void h_strncat_array(void) { VF_INPUT(unsigned char, n); VF_INPUT(unsigned char, ld); VF_INPUT(unsigned char, g); VF_INPUT_ARR(char, pre, LMAX);
+  __CPROVER_assume(ld <= LMAX); VF_BUF(char, s, n, LMAX);       /* exact-size source array, no terminator behind it */
+  unsigned long app = 0; while (app < LMAX && app < n && s_in[app] != 0) ++app;     /* appended: up to the first null character, at most n */
+  __CPROVER_assume(g <= ld + app);
+  char *d = (char *)VF_ALLOC((unsigned long)ld + app + 1);   /* exact fit */
+  for (int i = 0; i < LMAX; ++i) if (i < ld) { __CPROVER_assume(pre[i] != 0); d[i] = pre[i]; } d[ld] = 0;
+  VF_KNOWN(C18_strncat_reads_src_count, app == n);            /* no null character among the n source characters */
+  char *r = c_strncat(d, s, n);
+  VF_ASSERT(r == d && d[g] == (g < ld ? pre[g] : (g < ld + app ? s_in[g - ld] : 0)), "strncat from an unterminated array of exactly n characters: at most n appended, result terminated, source not read past its end");
+  VF_REACH(); }
+
 /*@GROUP name=strchr props=C18,C13,C02 kind=B unwind=8 bound=strlen<=4@*/
 void h_strchr(void) { STR(char, s, ls); VF_INPUT(int, ch); VF_INPUT_BOOL(ce); vf_ce = ce; __CPROVER_assume(ch >= -128 && ch <= 255);
   long e = c_r_chr(s_in, ls, (char)ch), er = c_r_rchr(s_in, ls, (char)ch);
@@ -170,9 +183,59 @@ void h_u_memchr(void) { unsigned char *p; unsigned char ch; unsigned long n; vf_
 /*@GROUP name=u_strlen props=C18,C02 kind=U mode=contract enforce=d_strlen loops=1 standin=strlen_cmp_ascii@*/
 void h_u_strlen(void) { char *s; vf_n = nondet_ulong(); vf_k = nondet_ulong(); d_strlen(s); VF_REACH(); }
 
-/*@GROUP name=u_memmove props=C18,C02 kind=U mode=contract enforce=d_memmove loops=1 standin=memmove@*/
-void h_u_memmove(void) { void *d; void *s; unsigned long n; vf_k = nondet_ulong(); vf_m = nondet_ulong(); vf_p = nondet_ulong(); vf_q = nondet_ulong(); vf_t = nondet_ulong();
-  d_memmove(d, s, n); VF_REACH(); }
+/* ---- unbounded groups (kind=U) on the remaining <cstring>/<cwchar> loops. The contracts are generated by mkspec.py; its doc string says
+ * what is proved for all sizes and which clauses ("the first difference decides", "absent", "last occurrence", "exactly the string is
+ * appended") additionally need the deciding prefix to be at most VF_PIN elements, and why. Not under contract (see mkspec.py
+ * EXPERIMENTAL): strcpy, strncpy, strncat, wmemmove -- the dfcc encoding of their pointer-writing loops exceeds the 10 GB limit;
+ * wcscmp/wcsncmp -- int(a) - int(b) overflows for wide characters of opposite sign, excluding that needs "all elements non-negative",
+ * a quantified precondition; strspn/strcspn/strpbrk/strstr -- nested loops, not attempted. Their bounded groups above stay. ---- */
+/*@COMMON@*/
+#define VF_GHOSTS() do { vf_k = nondet_ulong(); vf_j = nondet_ulong(); vf_m = nondet_ulong(); vf_n = nondet_ulong(); vf_p = nondet_ulong(); vf_q = nondet_ulong(); vf_t = nondet_ulong(); } while (0)
+
+/*@GROUP name=u_memcmp props=C18,C02 kind=U mode=contract enforce=e_memcmp loops=1 standin=memcmp_nozero@*/
+void h_u_memcmp(void) { void *a; void *b; unsigned long n; VF_GHOSTS(); e_memcmp(a, b, n); VF_REACH(); }
+
+/*@GROUP name=u_wmemcmp props=C18,C02 kind=U mode=contract enforce=e_wmemcmp loops=1 standin=wmem@*/
+void h_u_wmemcmp(void) { wch *a; wch *b; unsigned long n; VF_GHOSTS(); e_wmemcmp(a, b, n); VF_REACH(); }
+
+/*@GROUP name=u_wcslen props=C18,C02 kind=U mode=contract enforce=d_wcslen loops=1 standin=wcs@*/
+void h_u_wcslen(void) { wch *s; VF_GHOSTS(); d_wcslen(s); VF_REACH(); }
+
+/*@GROUP name=u_wmemchr props=C18,C02 kind=U mode=contract enforce=d_wmemchr loops=1 standin=wmem@*/
+void h_u_wmemchr(void) { wch *p; wch c; unsigned long n; VF_GHOSTS(); d_wmemchr(p, c, n); VF_REACH(); }
+
+/*@GROUP name=u_wmemcpy props=C18,C02 kind=U mode=contract enforce=e_wmemcpy loops=1 standin=wmem@*/
+void h_u_wmemcpy(void) { wch *d; wch *s; unsigned long n; VF_GHOSTS(); e_wmemcpy(d, s, n); VF_REACH(); }
+
+/*@GROUP name=u_wmemset props=C18,C02 kind=U mode=contract enforce=d_wmemset loops=1 standin=wmem@*/
+void h_u_wmemset(void) { wch *d; wch c; unsigned long n; VF_GHOSTS(); d_wmemset(d, c, n); VF_REACH(); }
+
+/*@GROUP name=u_strchr props=C18,C02 kind=U mode=contract enforce=d_strchr loops=1 standin=strchr@*/
+void h_u_strchr(void) { char *s; int ch; VF_GHOSTS(); d_strchr(s, ch); VF_REACH(); }
+
+/*@GROUP name=u_strchr_m props=C18,C02 kind=U mode=contract enforce=d_strchr_m loops=1 standin=strchr@*/
+void h_u_strchr_m(void) { char *s; int ch; VF_GHOSTS(); d_strchr_m(s, ch); VF_REACH(); }
+
+/*@GROUP name=u_wcschr props=C18,C02 kind=U solver=kissat mode=contract enforce=d_wcschr loops=1 standin=wcs@*/
+void h_u_wcschr(void) { wch *s; int ch; VF_GHOSTS(); d_wcschr(s, ch); VF_REACH(); }
+
+/*@GROUP name=u_strrchr props=C18,C02 kind=U mode=contract enforce=d_strrchr loops=1 standin=strchr@*/
+void h_u_strrchr(void) { char *s; int ch; VF_GHOSTS(); d_strrchr(s, ch); VF_REACH(); }
+
+/*@GROUP name=u_wcsrchr props=C18,C02 kind=U solver=kissat mode=contract enforce=d_wcsrchr loops=1 standin=wcs@*/
+void h_u_wcsrchr(void) { wch *s; int ch; VF_GHOSTS(); d_wcsrchr(s, ch); VF_REACH(); }
+
+/*@GROUP name=u_strcmp props=C18,C02 kind=U mode=contract enforce=d_strcmp loops=1 standin=strlen_cmp_ascii@*/
+void h_u_strcmp(void) { char *a; char *b; VF_GHOSTS(); d_strcmp(a, b); VF_REACH(); }
+
+/*@GROUP name=u_strncmp props=C18,C02 kind=U mode=contract enforce=d_strncmp loops=1 standin=strlen_cmp_ascii@*/
+void h_u_strncmp(void) { char *a; char *b; unsigned long n; VF_GHOSTS(); d_strncmp(a, b, n); VF_REACH(); }
+
+/*@GROUP name=u_memmove props=C18,C02 kind=U mode=contract enforce=d_memmove loops=1 standin=memmove tier=thorough timeout=1500@*/
+void h_u_memmove(void) { void *d; void *s; unsigned long n; VF_GHOSTS(); d_memmove(d, s, n); VF_REACH(); }
+
+/*@GROUP name=u_strcat props=C18,C02 kind=U mode=contract enforce=d_strcat loops=1 standin=strcat tier=thorough timeout=1500@*/
+void h_u_strcat(void) { char *d; char *s; VF_GHOSTS(); d_strcat(d, s); VF_REACH(); }
 
 /* ---- character classification: ISO C 7.4.1 "C" locale class definitions as explicit range predicates ---- */
 /*@COMMON@*/
